@@ -32,6 +32,20 @@ Check (C16_terminates :
   let outs := snd (run g (st0 m) es) in
   idle s -> quiescent s = true ->
   terminals q outs = started q es /\ (started q es <= 1)%nat).
+Check (C16_drain_progress :
+  forall s q0 q,
+  snd (serve s q0) = true ->
+  (q <> q0 -> aget q (eng (fst (fst (serve s q0)))) = aget q (eng s)) /\
+  (qw (aget q0 (eng (fst (fst (serve s q0))))) < qw (aget q0 (eng s)))%nat).
+Check (C16_quorum_honest :
+  forall g m es q,
+  fresh_ids [] es ->
+  let outs := snd (run g (st0 m) es) in
+  In (OPutSuccess q) outs \/ In (OProvSuccess q) outs ->
+  exists targets qr S,
+    find_quorum q es = Some qr /\ In (OTrack q targets) outs /\ NoDup S /\
+    clamp qr (N.of_nat (length targets)) <= N.of_nat (length S) /\
+    (forall p, In p S -> In (q, p) (sends g (st0 m) es) /\ In p targets)).
 Check (C16_default_config :
   1 <= V.gen.Consts.PARALLELISM_FACTOR /\ 0 < V.gen.Consts.KAD_READ_TIMEOUT_SECS /\
   0 < V.gen.Consts.KAD_WRITE_TIMEOUT_SECS).
